@@ -1,6 +1,6 @@
 (* C05 — axis_world_coords(_values) report exactly what the WCS says for every pixel.
    corr : world x pixel correlation matrix; pixel axis p is array axis n-1-p; W any pixel->world map. *)
-From NDV Require Import M_WorldCoords M_GlobalCoords P_GlobalCoords P_WorldCoords.
+From NDV Require Import M_WorldCoords M_GlobalCoords P_GlobalCoords P_WorldCoords P_WorldCoordsEC.
 From Coq Require Import Sorted.
 Open Scope Z_scope.
 
@@ -38,6 +38,50 @@ Theorem C05_int_axis : forall corr types n a sel, req_world corr types n (AInt a
   0 <= a' < Z.of_nat n /\ forall w, In w sel <-> (w < length corr)%nat /\ cget corr w (n - 1 - Z.to_nat a') = true.
 Proof. exact req_int_spec. Qed.
 Print Assumptions C05_int_axis.
+
+(* ---- wcs = extra_coords: coordinates coupled to several cube axes, extra pixel dimensions in any order -------------
+   (extra pixel dimension j is the cube's pixel axis pm[j]; the code evaluates the extra WCS over its own
+   dimensions and transposes the result into the cube's array-axis order: relabel) *)
+Theorem C05_ec_axes : forall corr n pm w, StronglySorted lt (ec_axes corr n pm w) /\
+  forall a, In a (ec_axes corr n pm w) <->
+            (a < n)%nat /\ exists j, (j < length pm)%nat /\ nth j pm n = (n - 1 - a)%nat /\ cget corr w j = true.
+Proof. exact ec_axes_spec. Qed.
+Print Assumptions C05_ec_axes.
+
+(* one dimension per dependent CUBE array axis, in increasing array-axis order, of that axis' length *)
+Theorem C05_ec_dims : forall corr cshape pm w, NoDup pm -> Forall (fun p => (p < length cshape)%nat) pm -> forall W corners,
+  fst (world_array_ec W corr cshape pm corners w)
+  = map (fun a => wc_range_len corners (nth a cshape 0)) (ec_axes corr (length cshape) pm w).
+Proof. exact world_array_ec_dims. Qed.
+Print Assumptions C05_ec_dims.
+
+(* every entry is the extra WCS's value at the centre (corner) of any cube element with the entry's coordinates on
+   the dependent cube axes *)
+Theorem C05_ec_entries : forall corr cshape pm w, NoDup pm -> Forall (fun p => (p < length cshape)%nat) pm ->
+  forall W corners e' E, corr_sound W corr -> length E = length cshape ->
+  in_box (fst (world_array_ec W corr cshape pm corners w)) e' ->
+  (forall a, In a (ec_axes corr (length cshape) pm w) -> nth a E 0 = lookup (ec_axes corr (length cshape) pm w) e' a) ->
+  (nth (Z.to_nat (ravel (fst (world_array_ec W corr cshape pm corners w)) e')) (snd (world_array_ec W corr cshape pm corners w)) 0
+   == nth w (W (ec_elem_pixel (length cshape) pm corners E)) 0)%Q.
+Proof. exact world_entry_ec_correct. Qed.
+Print Assumptions C05_ec_entries.
+
+(* the transposition itself: entry e' of the result is the source's entry at the index vector that gives each source
+   dimension the component of e' with the same label *)
+Theorem C05_transpose : forall (f : list Z -> Q) n labels sh e', NoDup labels -> Forall (fun a => (a < n)%nat) labels ->
+  length sh = length labels -> in_box (map (lookup labels sh) (sorted_labels n labels)) e' ->
+  nth (Z.to_nat (ravel (map (lookup labels sh) (sorted_labels n labels)) e')) (snd (relabel n labels sh (map f (box sh)))) 0%Q
+  = f (map (lookup (sorted_labels n labels) e') labels).
+Proof. exact relabel_entry. Qed.
+Print Assumptions C05_transpose.
+
+(* non-vacuity: a (2, 3) cube, one extra world axis = 10 x0 + x1 over extra pixel dimensions (x0, x1) mapped to the
+   cube's pixel axes (1, 0), i.e. to array axes (0, 1): the array is (2, 3) with entry [i][j] = 10 i + j *)
+Example C05_ec_nonvacuous :
+  world_array_ec (fun p => [(10 # 1) * nth 0 p 0 + nth 1 p 0]%Q) [[true; true]] [2; 3] [1%nat; 0%nat] false 0
+  = ([2; 3], [0 # 1; 1 # 1; 2 # 1; 10 # 1; 11 # 1; 12 # 1]%Q)
+  /\ ec_axes [[true; true]] 2 [1%nat; 0%nat] 0 = [0%nat; 1%nat].
+Proof. vm_compute. split; reflexivity. Qed.
 
 Example C05_nonvacuous :
   let corr := [[true; true; false]; [true; true; false]; [false; false; true]] in
